@@ -29,7 +29,7 @@ class StepLoop(asyncio.SelectorEventLoop):
         self.hold_time = lambda: False        # while True the virtual clock is frozen (engine paused: the main thread
         #                                       is taking its decision and must not race with timers on the loop)
         self._held = None
-        self.inject_block_timeout = 0.3
+        self.inject_block_timeout = 3.0      # generous: a loaded machine may take long to even start the helper thread
         self._inflight_blocked = False
         self._blocked_point_done = False
         self._inflight = False
